@@ -101,7 +101,8 @@ StreamRun(recs, from, to, R) == WorkerRun(Slice(recs, from, to), R, 0, FALSE, 0,
 
 -----------------------------------------------------------------------------
 \* effect of deletions.  fate[i] \in {"ok", "err", "cas"}: outcome of the i-th issued deletion;
-\* a non-CAS error makes the worker skip every later deletion of the same key (scanner.go:522-536);
+\* a failed unconditional delete, and a non-CAS error of the conditional index delete, make the
+\* worker skip every later deletion of the same key (scanner.go: isSkippedRawKey / compactKey);
 \* only the first n issued deletions are attempted (the compactor dies after n).
 RECURSIVE ApplyDeletes(_, _, _, _, _, _, _)
 ApplyDeletes(idx, ver, dels, fate, i, n, skipKey) ==
@@ -112,6 +113,7 @@ ApplyDeletes(idx, ver, dels, fate, i, n, skipKey) ==
               THEN IF d.r = 0
                    THEN ApplyDeletes([idx EXCEPT ![d.k] = NoIdx], ver, Tail(dels), fate, i + 1, n, skipKey)
                    ELSE ApplyDeletes(idx, [ver EXCEPT ![d.k] = {v \in @ : v.rev # d.r}], Tail(dels), fate, i + 1, n, skipKey)
-              ELSE ApplyDeletes(idx, ver, Tail(dels), fate, i + 1, n, IF fate[i] = "err" THEN d.k ELSE skipKey)
+              ELSE ApplyDeletes(idx, ver, Tail(dels), fate, i + 1, n,
+                                IF fate[i] = "err" \/ d.op = "del" THEN d.k ELSE skipKey)
 
 =============================================================================
